@@ -25,8 +25,9 @@ def encode (C : WalletCrypto) (ver : UInt8) (key : Bytes) (compr : Bool) : Bytes
 
 /-- `DecodePrivateAddr` up to the call of `NewPrivateAddr`: the (version, key, compressed) triple
     handed over, or the error returned. Statement by statement as in the Go code: 37 ≤ len ≤ 38,
-    checksum over all but the last 4 bytes, key = pkb[1:33], compressed = (len == 38 && pkb[33] == 1).
-    NOTE (as the code is): a 38-byte payload whose byte 33 is NOT 1 is accepted as an uncompressed key. -/
+    checksum over all but the last 4 bytes, a 38-byte payload must have byte 33 = 01 (the guard added by the
+    `fix:` commit for finding `wif-flag-byte-unchecked`), key = pkb[1:33],
+    compressed = (len == 38 && pkb[33] == 1). -/
 def decode (C : WalletCrypto) (s : Bytes) : Except WifErr (UInt8 × Bytes × Bool) :=
   match Base58.decode s with
   | none => .error .b58
@@ -34,9 +35,10 @@ def decode (C : WalletCrypto) (s : Bytes) : Except WifErr (UInt8 × Bytes × Boo
     if pkb.length < 37 then .error .short
     else if pkb.length > 38 then .error .long
     else if (C.shaHash (pkb.take (pkb.length - 4))).take 4 ≠ pkb.drop (pkb.length - 4) then .error .checksum
+    else if pkb.length = 38 ∧ pkb.getD 33 0 ≠ 1 then .error .flag
     else .ok (pkb.headD 0, (pkb.drop 1).take 32, decide (pkb.length = 38 ∧ pkb.getD 33 0 = 1))
 
-/-- what Bitcoin Core's `DecodeSecret` additionally demands (and gocoin does not): a 34-byte body ends in 01 -/
+/-- the rule of Bitcoin Core's `DecodeSecret` (and, since the fix, of gocoin): a 34-byte body ends in 01 -/
 def canonicalFlag (pkb : Bytes) : Bool := pkb.length = 37 ∨ pkb.getD 33 0 = 1
 
 end GocoinV.AddrWif
